@@ -168,7 +168,7 @@ impl Prop for C08 {
 
     fn profiles(tier: Tier) -> Vec<Profile> {
         match tier {
-            Tier::Quick => vec![prof("counters", 40_000), prof("same_machines", 20_000)],
+            Tier::Quick => vec![prof("counters", 160_000), prof("same_machines", 80_000)],
             Tier::Thorough => vec![prof("counters", 1_500_000), prof("same_machines", 700_000)],
         }
     }
